@@ -31,7 +31,7 @@ def main():
         version=1,
         setup_cmd="tools/setup.sh",
         hooks=dict(guard="JOHNMCFARLANE_CNL_VERIF", enable="-DJOHNMCFARLANE_CNL_VERIF (recorders add -DCNL_VERIF_OVERFLOW_PATH_INTRINSIC|PORTABLE to pick the overflow detection path)",
-                   baseline_off_cmd="cmake --build /repo/_build -j16 && ctest --test-dir /repo/_build -j8 --timeout 900",
+                   baseline_off_cmd="cmake --build /repo/_build -j16 -- -k 0 ; ctest --test-dir /repo/_build -j8 --timeout 900",
                    source_commits=hook_commits, add_only=True),
         engines=[dict(name="tlc", path="/verif/spec", serves_properties=[c["property_id"] for c in checks],
                       kind_free_text="explicit TLA+ specification (BigInt/CxxInt/Sem*/AsCoded* modules); TLC judges NDJSON events recorded from the real templates (trace validation, one state per event) and model-checks the as-coded algorithm models on scaled-down machines")],
